@@ -5,6 +5,8 @@ use syn::parse_macro_input;
 mod bit_size;
 mod bitenum;
 mod bitfield;
+#[cfg(feature = "verif_hooks")]
+mod verif_hooks;
 
 /// Defines a bitfield: `#[bitfield(<base-data-type>, default = 0)]`
 /// `<base-data-type>` is a data type like [`u32`] which is used to represent all the bits of the bitfield.
@@ -30,6 +32,8 @@ pub fn bitenum(args: TokenStream1, input: TokenStream1) -> TokenStream1 {
 
     let input = parse_macro_input!(input as syn::ItemEnum);
     match bitenum::bitenum(config, &input) {
+        #[cfg(feature = "verif_hooks")]
+        Ok(ref stream) if verif_hooks::dump("bitenum", &input.ident.to_string(), &stream.to_string()) => unreachable!(),
         Ok(stream) => stream.into(),
         Err(err) => {
             let error = err.into_compile_error();
